@@ -157,21 +157,32 @@ def run(ctx):
         raise AnalysisBroken("HArray::Insert(Key&&, Value&&) not found")
     f = ins[0]
     ctx.note_fn(f)
-    ok = False
-    for i in astq.nodes_of(f, "IfStmt"):
-        n = f.nodes[i]
-        cn = f.nodes[f.strip(n["cond"])]
-        if cn["k"] == "BinaryOperator" and cn["op"] in ("==", "!="):
-            then, els = (n["then"], n["else"]) if cn["op"] == "==" else (n["else"], n["then"])
-            if then is None or els is None or then < 0 or els < 0:
-                continue
-            # `item == nullptr` branch inserts; the other assigns item->Value and calls no insert
-            ins_calls = astq.calls(f, "insert", then)
-            els_ins = astq.calls(f, "insert", els)
-            assigns = [x for x in f.walk(els) if f.nodes[x]["k"] in ("BinaryOperator", "CXXOperatorCallExpr") and f.nodes[x].get("op") == "="
-                       and "Value" in f.text(f.nodes[x]["ch"][0] if f.nodes[x]["k"] == "BinaryOperator" else f.call_args(x)[0])]
-            ok = bool(ins_calls) and not els_ins and bool(assigns)
-            r.ob(f.q, "found-key branch", ok, "existing key: value assigned in place, no second insert (position kept)", f.loc(i))
+    # the found-key path: an assignment of the `value` parameter to the found item's Value that is not part of the
+    # not-found branch (the branch that calls insert())
+    vparam = f.params[1]["n"]
+    assigns = []
+    for x in f.walk():
+        n = f.nodes[x]
+        if n["k"] in ("BinaryOperator", "CXXOperatorCallExpr") and n.get("op") == "=":
+            lhs = n["ch"][0] if n["k"] == "BinaryOperator" else f.call_args(x)[0]
+            rhs = n["ch"][1] if n["k"] == "BinaryOperator" else f.call_args(x)[1]
+            if f.text(lhs).endswith("Value") and astq.refs_decl(f, rhs, vparam):
+                assigns.append(x)
+    ins_calls = astq.calls(f, "insert")
+    finds = astq.calls(f, "find")
+    in_insert_branch = []
+    for a in assigns:
+        enc = astq.enclosing(f, a, ("IfStmt",))
+        while enc is not None:
+            n = f.nodes[enc]
+            branch = n["then"] if a in set(f.walk(n["then"])) else n["else"]
+            if branch is not None and branch >= 0 and any(c in set(f.walk(branch)) for c in ins_calls):
+                in_insert_branch.append(a)
+            enc = astq.enclosing(f, enc, ("IfStmt",))
+    replace = [a for a in assigns if a not in in_insert_branch]
+    r.ob(f.q, "found-key path", bool(finds) and bool(ins_calls) and len(replace) >= 1,
+         "an existing key keeps its slot and gets the new value: %s" % ([f.text(a) for a in replace] or "NO assignment of `%s` to the found item's Value outside the insert branch" % vparam),
+         f.loc(replace[0]) if replace else "Include/HArray.hpp:%d" % f.line)
     rules.append(r)
 
     # ---- surrogates (shared with C20) and the encoders
